@@ -439,4 +439,39 @@ PROPS["C09"] = {
     "assumptions": ["third-party libraries keep no observable state between calls"],
 }
 
+def nt_c03(lhs, impl):
+    f = lhs.split(" ")
+    if "G" not in f:
+        return ("fixture", f[1][:16])
+    g = f[f.index("G"):]
+    # (bc, ca, pathlen class, ku mask, skid?, #eku, key kind, #sans)
+    return (f[0], g[1], g[2], g[3], g[4], g[6] != "-", g[9], g[10], g[11], impl[:2])
+
+PROPS["C03"] = {
+    "modules": ["WhatIs.Props.C03"],
+    "theorems": ["WhatIs.C03.tables_ok", "WhatIs.C03.key_usage_readback", "WhatIs.C03.pathlen_shown_iff", "WhatIs.C03.pathlen_value",
+                 "WhatIs.C03.description_injective", "WhatIs.C03.attribute_names", "WhatIs.C03.verbatim_fields",
+                 "WhatIs.C03.list_readback_partial", "WhatIs.C03.san_separator_witness"],
+    "facts": {"keyusage.isMap": False, "keyusage.count": 9, "eku.count": 14},
+    "nontrivial": nt_c03,
+    "rule": "certificates built with x509.CreateCertificate from templates: key-usage masks spread over all 512 values (thorough: every "
+            "mask), basic constraints absent / end-entity / CA with pathLen absent, 0, n, subject key id present/absent, 0..3 known EKUs "
+            "plus unknown OIDs, DNS/IPv4/IPv6/URI/email SANs, serials of 1..160 bits, validity instants incl. pre-1970 and the "
+            "UTCTime/GeneralizedTime boundary, names with special characters, ECDSA P-256/P-384, Ed25519, RSA-1024/2047 subject keys, "
+            "self-signed and issued; as DER and as PEM; plus the repository's certificate fixtures. The report is compared with the "
+            "GENERATOR's ground truth. distinct non-trivial = distinct (form, bc, ca, pathLen, mask, skid?, #EKU, key kind, #SANs)",
+    "design_ref": "DESIGN.md §5 C03",
+    "level_text": "Proof: over ALL field values: the key-usage names determine the bit mask for all 512 masks; the path-length line is "
+                  "shown iff a CA has an encoded constraint and then with its value; the description determines version and role; the "
+                  "attribute skeleton shows each optional item iff present; serial/names/dates/signature algorithm are verbatim; joined "
+                  "lists split back when no element contains the separator (partial: the SAN separator ambiguity is recorded finding D12 "
+                  "with a witness theorem). Tied to der.go by regenerated key-usage/EKU tables and a differential run against crypto/x509.",
+    "level_note": "Trusted: Lean kernel; translator; crypto/x509 parsing (H-x509: struct fields are what the DER encodes - cross-checked "
+                  "against the generator's own record of what it put into each certificate); names via the C15 model; public key child "
+                  "via the key inspected on its own (C02).",
+    "technique": "Lean 4 proof (decide over all 512 masks, structural reasoning on the attribute list, join/split left inverse) + regenerated tables + differential correspondence with generator ground truth",
+    "trusted_base": ["crypto/x509.ParseCertificate and CreateCertificate (oracle / generator)"],
+    "assumptions": ["H-x509"],
+}
+
 NOT_CLAIMED = {}
